@@ -283,6 +283,7 @@ CONSTANTS
   MaxPkts = {n}
   Kinds <- {kinds}
   Extra <- {extra}
+  Chunks <- {chunks}
   Outcomes <- {outs}
   Imm = {imm}
   GateProto = {gp}
@@ -293,13 +294,14 @@ CONSTANTS
   AliasMax = {am}
   Strict = {strict}
   GateStop = {gs}
+  MinChunk = {mc}
   Ends <- {ends}
 VIEW view
 INVARIANT TypeOk
 CHECK_DEADLOCK FALSE
 """
 
-INB_DEFAULTS = dict(extra="XNone", mr=0, mrs=0, rm=0, mq=2, am=2, strict=0, gs="FALSE", ends="ENone")
+INB_DEFAULTS = dict(extra="XNone", chunks="CNone", mc=32768, mr=0, mrs=0, rm=0, mq=2, am=2, strict=0, gs="FALSE", ends="ENone")
 
 
 def ep_cfg(params):
@@ -315,6 +317,8 @@ def ep_cfg(params):
         cfg["strict"] = params["strict"]
     if params.get("gs") == "TRUE":
         cfg["gate_stop"] = 1
+    if params.get("mc", 32768) != 32768:
+        cfg["min_chunk"] = params["mc"]
     return cfg
 
 
@@ -334,9 +338,12 @@ def ep_pkt(p, ver, vary, npub):
         q, i = p["q"], p["id"]
         d = {"t": "publish", "q": q, "id": i if q else 0, "topic": "t" * 40 if p["topic"] == "long" else p["topic"],
              "plen": p["plen"], "fill": 0x61 + i + q}
+        streamed = p.get("sent", p["plen"]) < p["plen"]
+        if streamed:
+            d.update(send=p["sent"], fill=0x61)
         if p["alias"]:
             d["alias"] = p["alias"]
-        if vary:
+        if vary and not streamed:
             # data the model abstracts from (decided by ProtoMon's C03 rules): payload length, flags, properties
             d["plen"] = 1 + (i % 2) * 2
             npub[0] += 1
@@ -345,6 +352,8 @@ def ep_pkt(p, ver, vary, npub):
                 if ver == 5:
                     d.update(up=1 + npub[0] % 3, ct="text/x", rt="re/ply", cd="corr", mei=7, pfi=1)
         return d
+    if k == "chunk":
+        return {"t": "payload", "n": p["plen"]}
     if k == "pubrel":
         return {"t": "pubrel", "id": p["id"]}
     if k == "sub":
@@ -387,7 +396,7 @@ def inb_decode_for(params):
                 pk = [ep_pkt(p, ver, vary, npub) for p in t["pk"]]
                 cmds.append({"c": "in", "p": pk[0]} if len(pk) == 1 else {"c": "in", "pkts": pk})
             elif t["a"] == "c":
-                cmds.append(okc({"c": "complete", "h": t["h"], "o": t["o"], "code": 135}))
+                cmds.append(okc(dict({"c": "complete", "h": t["h"], "o": t["o"], "code": 135}, **({"read": "all"} if t.get("rd") else {}))))
             elif t["a"] == "x":
                 cmds += EP_ENDS[t["o"]]
             else:
@@ -409,6 +418,10 @@ def inb_configs(tier):
                 ("ord", dict(ids="Ids12", n=n, kinds="KAll" if srv else "KPub01", outs="OOk", imm=T, gp=T if srv else F)),
                 ("ids", dict(ids="Ids1", n=n + 1, kinds="KIds" if srv else "KPub1", outs="ONack", imm=F, gp=F)),
             ]
+            # streamed payloads: a PUBLISH of 12 bytes of which 4 come with the header, pieces of 4 / 8 bytes, the last
+            # piece alone or in one write with the next PUBLISH; handlers that read the payload to its end or abandon it
+            base.append(("strm", dict(ids="Ids12", n=n + 2, kinds="KStrm", chunks="C48", outs="OOk", imm=F, gp=F, strict=3)))
+            base.append(("strm4", dict(ids="Ids12", n=n + 2, kinds="KStrm", chunks="C48", outs="OOk", imm=F, gp=F, strict=3, mc=4)))
             if not srv:
                 # QoS 2 towards a client: known finding (acknowledged with PUBACK), kept small
                 base.append(("q2", dict(ids="Ids1", n=2, kinds="KPub2", outs="OOk", imm=T, gp=F)))
@@ -426,7 +439,8 @@ def inb_tok2rec(t):
 def inb_project(e):
     # h_start.r carries the PUBLISH flags the handler saw, h_end.r the armed code (decided by ProtoMon's C03
     # rules, not by the model); x: only the topic a publish handler was given is compared
-    return dict(e=e["e"], k=e["k"], s=e["s"], id=e["id"], q=e["q"], r=0 if e["e"] in ("h_start", "h_end", "ctl") else e["r"],
+    hr = e["e"] == "h_read"
+    return dict(e=e["e"], k=e["k"], s=e["s"], id=0 if hr else e["id"], q=0 if hr else e["q"], r=0 if e["e"] in ("h_start", "h_end", "ctl") else e["r"],
                 x=e["x"] if e["e"] == "h_start" and e["k"] == "pub" else "")
 
 
